@@ -139,6 +139,9 @@ class Run:
               'violations': len(self.violations)}
         if self.replay is None:
             evdir = 'evidence' if os.path.realpath(REPO) == '/repo' else os.path.join('out', 'evidence_alt')
+            if self.pid.startswith('X'):
+                # extension engines (not listed properties): evidence kept apart from the per-property files
+                evdir = os.path.join('out', 'evidence_ext')
             path = os.path.join(VERIF, evdir, '%s.json' % self.pid)
             os.makedirs(os.path.dirname(path), exist_ok=True)
             with open(path, 'w') as fh:
